@@ -224,11 +224,36 @@ class _Synonyms(ast.NodeTransformer):
         return n
 
 
+class _StmtSynonyms(ast.NodeTransformer):
+    """statement-level synonyms: setattr(x, "name", v) -> x.name = v ;  x.__dict__.update({"a": u, "b": v}) / .update(a=u, b=v)
+    -> x.a = u; x.b = v"""
+    def visit_FunctionDef(self, n):
+        self.generic_visit(n)
+        return n
+
+    def visit_Expr(self, n):
+        c = n.value
+        if isinstance(c, ast.Call) and isinstance(c.func, ast.Name) and c.func.id == "setattr" and len(c.args) == 3 and not c.keywords \
+                and isinstance(c.args[1], ast.Constant) and isinstance(c.args[1].value, str) and c.args[1].value.isidentifier():
+            return ast.copy_location(ast.Assign(targets=[ast.Attribute(value=c.args[0], attr=c.args[1].value, ctx=ast.Store())], value=c.args[2], lineno=n.lineno), n)
+        if isinstance(c, ast.Call) and isinstance(c.func, ast.Attribute) and c.func.attr == "update" and isinstance(c.func.value, ast.Attribute) and c.func.value.attr == "__dict__":
+            obj = c.func.value.value
+            pairs = None
+            if len(c.args) == 1 and not c.keywords and isinstance(c.args[0], ast.Dict) and all(isinstance(k, ast.Constant) and isinstance(k.value, str) and k.value.isidentifier() for k in c.args[0].keys):
+                pairs = [(k.value, v) for k, v in zip(c.args[0].keys, c.args[0].values)]
+            elif not c.args and c.keywords and all(k.arg for k in c.keywords):
+                pairs = [(k.arg, k.value) for k in c.keywords]
+            if pairs:
+                return [ast.copy_location(ast.Assign(targets=[ast.Attribute(value=copy.deepcopy(obj), attr=k, ctx=ast.Store())], value=v, lineno=n.lineno), n) for k, v in pairs]
+        return n
+
+
 def apply_synonyms(repo):
     n = 0
     for f in repo.funcs.values():
         before = ast.dump(f.node)
         f.node = _Synonyms().visit(f.node)
+        f.node = _StmtSynonyms().visit(f.node)
         ast.fix_missing_locations(f.node)
         if ast.dump(f.node) != before:
             n += 1
